@@ -1,4 +1,5 @@
 import Firefly.Proof.VmmRzf
+import Firefly.Proof.VmmMemUtil
 import Firefly.Proof.VmmBoot
 import Firefly.Gen.C06
 /-!
@@ -125,6 +126,22 @@ theorem reserve_zeroed_frame {st : St} {R : W} {own : Own} (g : Good st R own) (
           ∀ va', UserVA va' → hwEntry st'.mem R va' =
             if SamePage va' tempVA then none else hwEntry st.mem R va')) :=
   rzf_full g hA htf hprot hf hunmapped
+
+/-- **copyFrame_eq_memcopy.** The model's "frame `fd` := contents of frame `fs`" step — what
+`cow_private_copy`'s "the new frame holds what the page showed" rests on — *is*
+`Memcopy(fs·4096, fd·4096, 4096)` as written (`Model/MemUtil.lean`; `memcopy_copies` in C04 states what
+that function does), applied to the byte view of the model's memory: the two memories agree on every
+byte. -/
+theorem copyFrame_eq_memcopy (m : Mem) (fs fd : Nat) (pa : Nat) :
+    Firefly.MemUtil.memcopy (byteView m) (fs * 4096) (fd * 4096) 4096#64 pa =
+      byteView (m.setFrame fd (fun i => m.rd fs i)) pa :=
+  Firefly.Vmm.copyFrame_eq_memcopy m fs fd pa
+
+/-- `Memcopy` copies (restated here because C06's "contents equal" clause depends on it) -/
+theorem memcopy_copies (mem : Firefly.MemUtil.Bytes) (src dst : Nat) (size : BitVec 64) (i : Nat) :
+    Firefly.MemUtil.memcopy mem src dst size i =
+      if dst ≤ i ∧ i < dst + size.toNat then mem (src + (i - dst)) else mem i :=
+  Firefly.MemUtil.memcopy_copies_core mem src dst size i
 
 /-- **Every other page fault panics.** If the handler returns at all, the walk found a leaf entry
 that is present, read-only and copy-on-write, a frame was available and the temporary mapping was
